@@ -23,6 +23,9 @@ def dispatch(prop):
     if prop == 'C19':
         import p_names
         return p_names.check
+    if prop == 'C18':
+        import p_fault
+        return p_fault.check
     if prop == 'C07':
         import p_dist
         return p_dist.check
